@@ -410,6 +410,55 @@ class PDB:
     def body(self, key):
         return self.bodies.get(key)
 
+    def impure_fns(self):
+        """in-crate bodies (and trait-method declarations) from which an RNG draw (alea::*) is reachable"""
+        if getattr(self, '_impure', None) is not None:
+            return self._impure
+        edges = {}
+        direct = set()
+        for k, b in self.bodies.items():
+            outs = set()
+            for _, t in b.calls():
+                fn = t.callee
+                if fn is None:
+                    continue
+                for p in (fn.res, fn.decl):
+                    if p:
+                        outs.add(p)
+                        if p.startswith('alea::') and not p.endswith('set_seed') and not p.endswith('get_seed'):
+                            direct.add(k)
+                for cl in fn.closures():
+                    outs.add(cl)
+            # closures defined inside are part of the parent for this purpose
+            edges[k] = outs
+        # trait method declarations -> impls
+        decl_impls = {}
+        for k, b in self.bodies.items():
+            if b.impl and b.impl.get('trait'):
+                tr = b.impl['trait'].split('<')[0]
+                decl_impls.setdefault('%s::%s' % (tr, b.name), set()).add(k)
+        impure = set(direct)
+        changed = True
+        while changed:
+            changed = False
+            for d, impls in decl_impls.items():
+                if d not in impure and impls & impure:
+                    impure.add(d)
+                    changed = True
+            for k, outs in edges.items():
+                if k not in impure and outs & impure:
+                    impure.add(k)
+                    changed = True
+            for k in list(self.bodies):
+                # a closure makes its parent impure when called there (conservative)
+                if k in impure and '::{closure#' in k:
+                    parent = k.split('::{closure#')[0]
+                    if parent in self.bodies and parent not in impure:
+                        impure.add(parent)
+                        changed = True
+        self._impure = impure
+        return impure
+
     def find(self, pred):
         return [b for b in self.bodies.values() if pred(b)]
 
